@@ -9,17 +9,29 @@ CONSTANT Which
 \* byte order: "" < "a" < "b" < "é" (0xC3 0xA9)
 MC_KeyOrderTrees == <<"", "a", "b", "é">>
 \* the "views" run adds the well-known keys of the Extent / SpanCtxt views
-MC_KeyOrderViews == <<"", "a", "b", "span_id", "span_parent", "trace_id", "ts", "ts_start", "é">>
+MC_KeyOrderViews == <<"", "a", "b", "evt_kind", "metric_agg", "metric_name", "metric_value",
+                       "span_id", "span_name", "span_parent", "trace_id", "ts", "ts_start", "é">>
 KS == 1..4
 K_ == 1      \* ""
 Ka == 2
 Kb == 3
-Ke == IF Which = "views" THEN 9 ELSE 4      \* "é"
-KSpanId == 4
-KSpanParent == 5
-KTraceId == 6
-KTs == 7
-KTsStart == 8
+Ke == IF Which = "views" THEN 14 ELSE 4      \* "é"
+KEvtKind == 4
+KMetricAgg == 5
+KMetricName == 6
+KMetricValue == 7
+KSpanId == 8
+KSpanName == 9
+KSpanParent == 10
+KTraceId == 11
+KTs == 12
+KTsStart == 13
+
+\* Span: evt_kind = Kind::Span (read back as 31), span_name "41";
+\* Metric: evt_kind = Kind::Metric (32), metric_name "42", metric_agg "43", metric_value 44
+MC_SpanPrefix == <<[k |-> KEvtKind, v |-> 31], [k |-> KSpanName, v |-> 41]>>
+MC_MetricPrefix == <<[k |-> KEvtKind, v |-> 32], [k |-> KMetricName, v |-> 42],
+                     [k |-> KMetricAgg, v |-> 43], [k |-> KMetricValue, v |-> 44]>>
 
 KVs(ks, b) == [i \in 1..Len(ks) |-> [k |-> ks[i], v |-> b + i]]
 
@@ -65,13 +77,52 @@ ViewLeaves ==
                    \o (IF pa THEN <<[k |-> KSpanParent, v |-> 23]>> ELSE <<>>)] :
             tr \in BOOLEAN, sp \in BOOLEAN, pa \in BOOLEAN}
 
+\* ThreadLocalCtxt snapshots after 2-3 nested pushed frames with overlapping keys.  Which
+\* frame's value a snapshot holds for a repeated key is C03's subject: every resolution
+\* (each key takes the value of any frame that has it) is a collection of its own here,
+\* `kvs` is the resolved content and `frames` what is pushed; the harness applies the
+\* resolution the real snapshot shows.
+FrameSets ==
+    {<<KVs(<<Ka, Kb>>, 50), KVs(<<Ka>>, 52)>>,
+     <<KVs(<<Ka>>, 50), KVs(<<Kb, Ka>>, 51), KVs(<<Ka, Ke>>, 53)>>,
+     <<KVs(<<Kb, KTraceId>>, 50), KVs(<<KTraceId, KEvtKind>>, 52)>>}
+
+FrameKeys(F) == UNION {{F[i][j].k : j \in 1..Len(F[i])} : i \in 1..Len(F)}
+FrameCands(F, k) == UNION {{F[i][j].v : j \in {n \in 1..Len(F[i]) : F[i][n].k = k}} : i \in 1..Len(F)}
+NestedCtxts ==
+    UNION {{[op |-> "ctxt", frames |-> F,
+             kvs |-> [n \in 1..Cardinality(FrameKeys(F)) |->
+                        [k |-> DescSeq(FrameKeys(F))[n], v |-> r[DescSeq(FrameKeys(F))[n]]]]] :
+            r \in {g \in [FrameKeys(F) -> 50..60] : \A k \in FrameKeys(F) : g[k] \in FrameCands(F, k)}} :
+           F \in FrameSets}
+
+\* user properties given to a Span / Metric: some repeat the well-known keys
+UserProps(b) ==
+    {[op |-> "empty"],
+     [op |-> "pair", kvs |-> KVs(<<Ka>>, b)],
+     [op |-> "pair", kvs |-> KVs(<<KEvtKind>>, b)],
+     [op |-> "arr", kvs |-> KVs(<<KSpanName, KEvtKind, Ka>>, b)],
+     [op |-> "arr", kvs |-> KVs(<<KMetricValue, KMetricName, KMetricValue>>, b)],
+     [op |-> "hash", kvs |-> KVs(<<KMetricAgg, Ka>>, b)],
+     [op |-> "spanctxt", kvs |-> <<[k |-> KTraceId, v |-> 21], [k |-> KSpanId, v |-> 22], [k |-> KSpanParent, v |-> 23]>>]}
+
+SpanMetricViews(b) == {[op |-> o, t |-> x] : o \in {"span", "metric"}, x \in UserProps(b)}
+
 \* leaves that repeat the views' keys with other values
 ViewRights(b) ==
-    LeavesSmall(b) \cup ViewLeaves \cup
-    {[op |-> "pair", kvs |-> KVs(<<KTs>>, b)],
+    {[op |-> "empty"],
+     [op |-> "pair", kvs |-> KVs(<<Ka>>, b)],
+     [op |-> "arr", kvs |-> KVs(<<Kb, Ka>>, b)],
+     [op |-> "hash", kvs |-> KVs(<<Ke, Ka>>, b)],
+     [op |-> "pair", kvs |-> KVs(<<KTs>>, b)],
      [op |-> "arr", kvs |-> KVs(<<KTsStart, KTs, KTs>>, b)],
      [op |-> "ctxt", kvs |-> KVs(<<KTraceId, KSpanId>>, b)],
-     [op |-> "slice", kvs |-> KVs(<<KSpanParent, KTraceId>>, b)]}
+     [op |-> "slice", kvs |-> KVs(<<KSpanParent, KTraceId>>, b)],
+     [op |-> "arr", kvs |-> KVs(<<KEvtKind, KMetricValue, KSpanName>>, b)],
+     [op |-> "extent", kvs |-> <<[k |-> KTsStart, v |-> 3], [k |-> KTs, v |-> 5]>>],
+     [op |-> "spanctxt", kvs |-> <<[k |-> KTraceId, v |-> 21], [k |-> KSpanId, v |-> 22]>>]}
+
+AllViews == ViewLeaves \cup NestedCtxts \cup SpanMetricViews(30)
 
 LeavesMid(b) ==
     LeavesSmall(b) \cup
@@ -180,15 +231,16 @@ IsSites == Which \in {"sites_quick", "sites_thorough"}
 
 MC_NModes == IF IsSites \/ Which = "views" THEN 1 ELSE Len(ModesFor(Which))
 MC_Seeds(m) ==
-    IF Which = "views" THEN ViewLeaves \cup {[op |-> o, t |-> x] : o \in {"dedup", "erased"}, x \in ViewLeaves}
-                            \cup {[op |-> "and", l |-> x, r |-> y] : x \in ViewRights(30), y \in ViewLeaves}
+    IF Which = "views" THEN AllViews \cup {[op |-> o, t |-> x] : o \in {"dedup", "erased"}, x \in AllViews}
+                            \cup {[op |-> "and", l |-> x, r |-> y] : x \in ViewRights(70), y \in AllViews}
     ELSE IF IsSites THEN (IF Which = "sites_quick" THEN SitesQuick(0) ELSE SitesThorough(0))
     ELSE T(ModesFor(Which)[m][1], ModesFor(Which)[m][2], 0) \cup {[op |-> "none"]}
 MC_Rights(m) ==
-    IF Which = "views" THEN ViewRights(40)
+    IF Which = "views" THEN ViewRights(80) \cup SpanMetricViews(90)
     ELSE IF IsSites THEN {}
     ELSE T(ModesFor(Which)[m][1], ModesFor(Which)[m][2], Width(ModesFor(Which)[m][2]))
-MC_Extend(m) == ~IsSites
+MC_Wraps(m) ==
+    IF IsSites THEN {} ELSE IF Which = "views" THEN Unary \cup {"span", "metric"} ELSE Unary
 
 MC_KeyOrder ==
     IF Which \in {"sites_quick", "sites_thorough"} THEN MC_KeyOrderSites
